@@ -715,5 +715,38 @@ Proof.
   apply andb_true_iff in T. destruct T as [T1' T2']. rewrite T1', T2'.
   assert (E : (mp4_forest_height new_atoms <=? MP4_MAXDEPTH) = true) by (apply Z.leb_le; exact HH). rewrite E. reflexivity.
 Qed.
+
+(* ================================================================== the save finds its own free atom again *)
+Hypothesis HT1no : Forall (fun x => ma_name x <> N_moov) T1.
+Hypothesis HM1no : Forall (fun x => ma_name x <> N_udta) M1.
+Hypothesis HU1no : Forall (fun x => ma_name x <> N_meta) U1.
+Hypothesis HAno : Forall (fun x => ma_name x <> N_ilst) A.
+Hypothesis Hitname : ma_name it = N_ilst.
+
+Lemma new_path : mp4_path new_atoms ILST_PATH = Some [new_moov; new_udta; new_meta; new_ilst].
+Proof.
+  unfold ILST_PATH, new_atoms. cbn [mp4_path].
+  rewrite (child_of_split N_moov T1 new_moov (shift_forest delta T2)); [|exact Nmoov|exact HT1no].
+  unfold new_moov at 1. cbn [ma_kids].
+  rewrite (child_of_split N_udta M1 new_udta (shift_forest delta M2)); [|exact Nudta|exact HM1no].
+  unfold new_udta at 1. cbn [ma_kids].
+  rewrite (child_of_split N_meta U1 new_meta (shift_forest delta U2)); [|exact Nmeta|exact HU1no].
+  unfold new_meta at 1. cbn [ma_kids app].
+  rewrite (child_of_split N_ilst A new_ilst (new_free :: shift_forest delta B)); [reflexivity| |exact HAno].
+  unfold new_ilst. rewrite shift_name. exact Hitname.
+Qed.
+
+Lemma new_region_found : mp4_region_of [new_moov; new_udta; new_meta; new_ilst] = Some (off, zlen data).
+Proof.
+  unfold mp4_region_of.
+  assert (Hk : ma_kids new_meta = Some (A ++ new_ilst :: (new_free :: shift_forest delta B))) by reflexivity.
+  assert (Hn : ma_name new_ilst = N_ilst) by (unfold new_ilst; rewrite shift_name; exact Hitname).
+  rewrite (find_padding_value new_meta A new_ilst (new_free :: shift_forest delta B) Hk Hn HAno).
+  cbn [next_free_of]. change (mp4_is_free new_free) with true. cbv iota.
+  pose proof (forest_ok_cons _ _ _ _ _ _ Hit) as (E1 & E2 & E3). apply forest_ok_nil in E3.
+  pose proof (zlen_nonneg ilst_data).
+  assert (Hfr : zlen data = zlen ilst_data + zlen fr) by (rewrite Hdata, zlen_app; reflexivity).
+  unfold new_ilst, new_free. rewrite shift_off, shift_len. cbn [ma_off ma_len]. f_equal. f_equal; lia.
+Qed.
 (*EXISTING-CONTINUES*)
 End Existing.
